@@ -227,6 +227,11 @@ def h_slowest_deton(h):
     hy.findMatching = lambda v: (None, None, hy.Tnucl, TmF(v))
     hy.TMaxLowT = h.real("TMaxLowT", 0.01, 1e4, default=1.1)
     out = hy.slowestDeton()
+    # documented: "Returns 1 if Tm is above TMaxLowT for vw = 1"
+    if _decided(gt(TmF(1), hy.TMaxLowT)):
+        h.prove("T- above its range even at vw = 1 => sentinel 1 (no admissible detonation)",
+                Cond(b=(not isinstance(out, Sym)) and out == 1))
+        return
     if not isinstance(out, Sym) and out == 1 and not [c for c in st.calls if c[0] == "root_scalar"]:
         h.prove("sentinel 1 only if T- exceeds its range even at vw = 1", gt(TmF(1), hy.TMaxLowT))
         return
